@@ -56,7 +56,8 @@ LEGEND = (
     "solver_callback 0 = default_solver_callback, n = recording callback n; 'main' = effect of A.I(B) (16x16 SPD, see "
     "harness/c19.py matrices()), 'sing' = effect of Z.I(B) (singular: every solve fails), as ['raised'] or "
     "['ret', solver and options whose reference solve gives the returned vector and step count, callback that ran]; "
-    "events: ['E', kw] with Config(**kw): / ['X'] end of block / ['XE'] block left by an exception / ['N'] X = A.I (and Z.I) / "
+    "events: ['E', kw] with Config(**kw): / ['B', kw] p = Config(**kw) (the object is only BUILT, and kept as the next preset: "
+    "p0, p1, ... in build order) / ['P', i] with p_i: (a Config object built earlier is ENTERED) / ['X'] end of block / ['XE'] block left by an exception / ['N'] X = A.I (and Z.I) / "
     "['R'] Config.instance() / ['D', i, how] derive an object from object i (L, R: 16x16 cyclic-shift dense operators, Zero: zero "
     "dense operator; the input/output of the derived expression are mapped so that the held inverse still sees exactly B): "
     + '; '.join(f'{k} = {v}' for k, v in HOW_DOC.items())
@@ -197,6 +198,7 @@ def impl():
     Lm = np.roll(np.eye(N), 1, axis=1)
     Rm = np.roll(np.eye(N), 3, axis=1)
     _impl.update(
+        options_ref={n: dict(d) for n, d in options.items()},  # independent (shallow) record: never handed to furax
         fc=fc, fields=fields, solvers=solvers, callbacks=callbacks, options=options, cb_log=[], default=default,
         opA=dense(A), opZ=dense(Z), y=jnp.asarray(b, dtype=jnp.float64), ref=ref,
         fails=sorted(k for k in ref if not ref[k]['ok']),
@@ -214,7 +216,9 @@ def to_kwargs(kw: dict) -> dict:
         elif k == 'throw':
             out['solver_throw'] = bool(v)
         elif k == 'options':
-            out['solver_options'] = im['options'][v]
+            # a dict of its own for every Config(...) call (as a user writes `solver_options={...}` inline): a write
+            # into a configuration's dict can then be told from the independent record im['options_ref']
+            out['solver_options'] = dict(im['options_ref'][v])
         elif k == 'callback':
             out['solver_callback'] = im['callbacks'][v]
         else:
@@ -231,7 +235,7 @@ def cfg_ids(state) -> list[int]:
     callback = next((n for n, c in im['callbacks'].items() if c is state.solver_callback), -1)
     options = -1
     if isinstance(state.solver_options, dict):
-        for n, d in im['options'].items():
+        for n, d in im['options_ref'].items():
             if set(d) == set(state.solver_options) and all(state.solver_options[k] is d[k] for k in d):
                 options = n
     throw = int(state.solver_throw) if isinstance(state.solver_throw, bool) else -1
@@ -491,8 +495,9 @@ def event_route(e, case_jit=False):
 class Runner:
     """Executes one thread's history with genuine `with Config(...)` statements."""
 
-    def __init__(self, events, gate=None, tid=0, log=None, fx=False, jit=False):
+    def __init__(self, events, gate=None, tid=0, log=None, fx=False, jit=False, presets=None):
         self.events = events
+        self.presets = list(presets or [])  # Config objects built (['B', kw]) or handed over, entered by ['P', i]
         self.gate = gate
         self.tid = tid
         self.obs = log if log is not None else []
@@ -522,8 +527,9 @@ class Runner:
                 return pos
             if self.gate:
                 self.gate.wait_turn(self.tid)
-            if e[0] == 'E':
-                cm = fc.Config(**to_kwargs(e[1]))
+            if e[0] in ('E', 'P'):
+                # ['E', kw]: the object is built where it is entered; ['P', i]: an object built earlier is entered
+                cm = fc.Config(**to_kwargs(e[1])) if e[0] == 'E' else self.presets[e[1]]
                 self.record(None)
                 if self.gate:
                     # the constructor ran at its turn; entering happens right away (with statement)
@@ -546,7 +552,10 @@ class Runner:
                     self.gate.done()
                 pos += 1
                 continue
-            if e[0] == 'N':
+            if e[0] == 'B':
+                self.presets.append(fc.Config(**to_kwargs(e[1])))  # Config.__init__ only
+                self.record(None)
+            elif e[0] == 'N':
                 self.invs.append(Obj(make_inverse(self.fx)))
                 self.record(None)
             elif e[0] == 'D':
@@ -558,18 +567,44 @@ class Runner:
                 if X is None:
                     self.record([])
                 elif not self.fx:
-                    self.record(held_ids(X.ops[0]))
+                    # threads / contexts: the stored configuration; the object is applied for real (eagerly) and the stored
+                    # and the active configuration are re-read - an application must not write into a configuration
+                    # (which other objects, blocks, threads and copied contexts may share)
+                    import jax
+
+                    before, active = held_ids(X.ops[0]), cfg_ids(fc.Config.instance())
+                    if self.gate is not None:
+                        try:
+                            jax.block_until_ready(apply_via('eager', X.ops[0], X, None)())
+                        except Exception:  # a failed solve under solver_throw
+                            pass
+                    after, active2 = held_ids(X.ops[0]), cfg_ids(fc.Config.instance())
+                    if (after, active2) != (before, active):
+                        self.record({'cfg': before, 'cfg_stored_AFTER_the_application': after,
+                                     'active_configuration_changed_by_the_application': [active, active2]})  # fmt: skip
+                    else:
+                        self.record(before)
                 else:
                     o = {'cfg': held_ids(X.ops[0])}
                     if held_ids(X.ops[1]) != o['cfg']:
                         o['cfg_of_second_inverse'] = held_ids(X.ops[1])
                     route = event_route(e, self.jit)
+                    active = cfg_ids(fc.Config.instance())
                     o.update(observe_effect([apply_via(route, E, X, self.jitted) for E in X.ops], route != 'eager'))
+                    # applying must leave the configurations alone (compared with the independent record of the
+                    # setting objects): the one the object stores and the active one
+                    if held_ids(X.ops[0]) != o['cfg']:
+                        o['cfg_stored_AFTER_the_application'] = held_ids(X.ops[0])
+                    if cfg_ids(fc.Config.instance()) != active:
+                        o['active_configuration_changed_by_the_application'] = [active, cfg_ids(fc.Config.instance())]
                     self.record(o)
             elif e[0] == 'R':
                 self.record(cfg_ids(fc.Config.instance()))
-            elif e[0] == 'F':  # fork a context copy that runs another history
+            elif e[0] == 'F':  # fork a context copy that runs another history (handed the Config objects built so far)
                 self.gate.fork(self, e[1])
+                self.record('fork')
+            elif e[0] == 'T':  # a plain new thread (fresh context) runs another history, handed the Config objects built so far
+                self.gate.hand(self, e[1])
                 self.record('fork')
             else:
                 raise ValueError(e)
@@ -605,8 +640,8 @@ class Gate:
             self.pos += 1
             self.cv.notify_all()
 
-    def start(self, tid, ctx=None):
-        r = Runner(self.histories[tid], gate=self, tid=tid, log=self.log)
+    def start(self, tid, ctx=None, presets=None):
+        r = Runner(self.histories[tid], gate=self, tid=tid, log=self.log, presets=presets)
 
         def target():
             try:
@@ -624,10 +659,13 @@ class Gate:
         th.start()
 
     def fork(self, runner, child):
-        self.start(child, contextvars.copy_context())
+        self.start(child, contextvars.copy_context(), list(runner.presets))
+
+    def hand(self, runner, child):
+        self.start(child, None, list(runner.presets))
 
 
-def walk(events, start=None):
+def walk(events, start=None, presets0=None, trace=None):
     """Stack discipline and provenance of the objects, stated independently of the Coq model.  Yields for every
     event (index, event, active configuration after it, objects so far); an object is a dict
     cfg = the configuration it must use (the one active when the lazy inverse it holds was created),
@@ -635,13 +673,36 @@ def walk(events, start=None):
     replaced = the configuration of the object `.I.I` was taken from (a NEW lazy inverse), if any."""
     cur = list(start or [0, 0, 0, 0])
     stack, objs = [], []
+    # Config objects kept by the history: what each holds is decided when it is BUILT (the configuration active
+    # then, overridden by its keywords); entering one makes exactly that active, and the matching exit restores
+    # what was active when it was ENTERED.  trace (if given) receives dict(i, preset, built_under, entered_under,
+    # exit) for every block opened with ['P', k].
+    presets = [list(p) for p in (presets0 or [])]
+    built_under = [None] * len(presets)
+    opened = []
     for i, e in enumerate(events):
         if e[0] == 'E':
             stack.append(list(cur))
+            opened.append(None)
             for k, v in e[1].items():
                 cur[SETTINGS.index(k)] = v
+        elif e[0] == 'B':
+            p = list(cur)
+            for k, v in e[1].items():
+                p[SETTINGS.index(k)] = v
+            presets.append(p)
+            built_under.append(list(cur))
+        elif e[0] == 'P':
+            stack.append(list(cur))
+            opened.append({'i': i, 'preset': e[1], 'built_under': built_under[e[1]], 'entered_under': list(cur), 'exit': None})
+            if trace is not None:
+                trace.append(opened[-1])
+            cur = list(presets[e[1]])
         elif e[0] in ('X', 'XE'):
             cur = stack.pop()
+            o = opened.pop()
+            if o is not None:
+                o['exit'] = i
         elif e[0] == 'N':
             objs.append({'cfg': list(cur), 'derived': [], 'replaced': None})
         elif e[0] == 'D' and e[1] < len(objs):
@@ -653,11 +714,11 @@ def walk(events, start=None):
         yield i, e, list(cur), objs
 
 
-def reference(events, start=None, fx=False):
+def reference(events, start=None, fx=False, presets0=None):
     """(observations, final configuration).  With fx an application is observed as the configuration of the
     object plus its expected effect on op.I(y), whatever the route of application."""
     obs, cur = [], list(start or [0, 0, 0, 0])
-    for _, e, cur, objs in walk(events, start):
+    for _, e, cur, objs in walk(events, start, presets0):
         if e[0] == 'A':
             if e[1] >= len(objs):
                 obs.append([])
@@ -667,11 +728,35 @@ def reference(events, start=None, fx=False):
                 obs.append(list(objs[e[1]]['cfg']))
         elif e[0] == 'R':
             obs.append(list(cur))
-        elif e[0] == 'F':
+        elif e[0] in ('F', 'T'):
             obs.append('fork')
         else:
             obs.append(None)
     return obs, cur
+
+
+def state_before(events, k, start=None, presets0=None):
+    """(active configuration, presets, indices of the presets whose block is open) after the first k events."""
+    cur, stack, opened = list(start or [0, 0, 0, 0]), [], []
+    presets = [list(p) for p in (presets0 or [])]
+    for e in events[:k]:
+        if e[0] in ('E', 'P'):
+            stack.append(list(cur))
+            opened.append(e[1] if e[0] == 'P' else None)
+            if e[0] == 'E':
+                for kk, v in e[1].items():
+                    cur[SETTINGS.index(kk)] = v
+            else:
+                cur = list(presets[e[1]])
+        elif e[0] == 'B':
+            p = list(cur)
+            for kk, v in e[1].items():
+                p[SETTINGS.index(kk)] = v
+            presets.append(p)
+        elif e[0] in ('X', 'XE'):
+            cur = stack.pop()
+            opened.pop()
+    return cur, presets, [o for o in opened if o is not None]
 
 
 def applications(events, case_jit=False):
@@ -982,19 +1067,35 @@ def enum_histories(maxlen, kws, derive=False):
     return out
 
 
-def random_history(rng, length, kws, derive=0.0, routes=None):
-    """derive: probability of a derivation event; routes: the routes applications may take (default eager)."""
+def random_history(rng, length, kws, derive=0.0, routes=None, presets=0.0, handed=0, usable=None, reentrant=False):
+    """derive: probability of a derivation event; routes: the routes applications may take (default eager);
+    presets: probability of an event on Config objects kept by the history (built: ['B', kw]; entered: ['P', i] -
+    never one whose block is still open: Config keeps ONE token per object); handed: number of Config objects the
+    history starts with, of which it may enter those in `usable`."""
     h, depth, ninv = [], 0, 0
+    npre, opened = handed, []
+    can = set(range(handed)) if usable is None else set(usable)
     while len(h) + depth < length:
         r = rng.random()
-        if ninv > 0 and rng.random() < derive:
+        free = sorted(can) if reentrant else sorted(can - {o for o in opened if o is not None})
+        if presets and rng.random() < presets and (not free or rng.random() < 0.4):
+            h.append(['B', rng.choice(kws)])
+            can.add(npre)
+            npre += 1
+        elif presets and free and rng.random() < 1.6 * presets:
+            h.append(['P', rng.choice(free)])
+            opened.append(h[-1][1])
+            depth += 1
+        elif ninv > 0 and rng.random() < derive:
             h.append(['D', rng.randrange(ninv), rng.choice(HOWS)])
             ninv += 1
         elif r < 0.3:
             h.append(['E', rng.choice(kws)])
+            opened.append(None)
             depth += 1
         elif r < 0.5 and depth > 0:
             h.append(rng.choice([['X'], ['XE']]))
+            opened.pop()
             depth -= 1
         elif r < 0.7:
             h.append(['R'])
@@ -1013,10 +1114,232 @@ def random_history(rng, length, kws, derive=0.0, routes=None):
     return h
 
 
+def enum_preset_histories(maxlen, kws, reentrant=False):
+    """All well-nested histories of at most maxlen events over build(kws) / enter-preset / enter-inline(kws[0]) / exit /
+    exit-by-exception / read that enter a kept Config object at least once (never one whose block is open) and read
+    at least once after that."""
+    out = []
+
+    def go(h, opened, npre):
+        if not opened and any(e[0] == 'P' for e in h) and h[-1][0] == 'R':
+            out.append(list(h))
+        room = maxlen - len(h) - len(opened)
+        if room <= 0:
+            if opened and len(h) < maxlen:
+                for x in (['X'], ['XE']):
+                    go(h + [x], opened[:-1], npre)
+            return
+        for kw in kws:
+            go(h + [['B', kw]], opened, npre + 1)
+        for i in range(npre):
+            if (reentrant or i not in opened) and room >= 2:
+                go(h + [['P', i]], opened + [i], npre)
+        if room >= 2:
+            go(h + [['E', kws[0]]], opened + [None], npre)
+        if opened:
+            for x in (['X'], ['XE']):
+                go(h + [x], opened[:-1], npre)
+        if not h or h[-1][0] != 'R':
+            go(h + [['R']], opened, npre)
+
+    go([], [], 0)
+    return out
+
+
+def preset_histories(f, vb, ve, own, x1, x2):
+    """Config objects built under setting f = vb and entered under f = ve (own: the keywords of the object itself;
+    x1, x2: how blocks are left).  Every history reads - and creates an inverse - inside the block and after it."""
+    other = {k: (v + 1) % len(VALUES[k]) for k, v in own.items()} if own else {}
+    return [
+        # built under the defaults, entered inside a block
+        [['B', own], ['E', {f: ve}], ['P', 0], ['R'], ['N'], x1, ['R'], ['N'], ['A', 0], ['A', 1], x2, ['R'], ['A', 1]],
+        # built inside a block, entered after it is closed
+        [['E', {f: vb}], ['B', own], x1, ['R'], ['P', 0], ['R'], ['N'], x2, ['R'], ['A', 0], ['N'], ['A', 1]],
+        # built inside a block, entered inside a sibling block
+        [['E', {f: vb}], ['B', own], x1, ['E', {f: ve}], ['P', 0], ['R'], x2, ['R'], ['N'], x1, ['A', 0], ['R']],
+        # built inside a block and entered in the block nested in it that changes f
+        [['E', {f: vb}], ['B', own], ['E', {f: ve}], ['P', 0], ['N'], ['R'], x1, ['R'], ['N'], x2, ['R'], x1, ['A', 0], ['A', 1]],
+        # the same object entered at three depths, one after the other
+        [['B', own], ['P', 0], ['R'], x1, ['E', {f: ve}], ['P', 0], ['R'], x2, ['R'], ['E', {f: vb, **other}], ['P', 0], ['R'], x1, ['R'],
+         x2, ['R'], x1, ['R']],
+        # entered inside the block of ANOTHER kept object (built under f = vb), which is entered under f = ve
+        [['B', own], ['E', {f: vb}], ['B', other], x1, ['E', {f: ve}], ['P', 1], ['R'], ['P', 0], ['R'], ['N'], x2, ['R'], x1, ['R'], x2,
+         ['R'], ['A', 0]],
+        # an object built INSIDE the block of a kept object inherits that object's configuration
+        [['E', {f: vb}], ['B', own], x1, ['E', {f: ve}], ['P', 0], ['B', other], x2, ['R'], ['P', 1], ['R'], ['N'], x1, ['R'], x2,
+         ['P', 1], ['A', 0], ['R'], x1, ['R']],
+    ]
+
+
+def preset_cases(rng, quick, reentrant=False):
+    """Config objects built at one point and entered at another: every setting x every ordered pair (value active when
+    the object is built, value active when it is entered) x keywords of the object x 7 shapes x ways of leaving."""
+    cases, n = [], 0
+    for f in SETTINGS:
+        for vb, ve in itertools.permutations(VALUES[f], 2):
+            owns = [{}, {f: next(v for v in VALUES[f] if v not in (vb, ve))} if len(VALUES[f]) > 2 else {}]
+            owns += [{g: rng.choice(VALUES[g][1:])} for g in SETTINGS if g != f]
+            for own in owns if not quick else [owns[0], owns[1 + n % (len(owns) - 1)]]:
+                n += 1
+                x1, x2 = [['X'], ['XE']][n % 2], [['X'], ['XE']][(n // 2) % 2]
+                hs = preset_histories(f, vb, ve, own, x1, x2)
+                for h in hs if not quick else [hs[n % len(hs)], hs[(n + 3) % len(hs)]]:
+                    cases.append({'kind': 'single', 'events': h, 'fx': True, 'directed': 'preset-' + f})
+                if reentrant:
+                    # the same object entered again while its block is open (directly, and with a block in between)
+                    h = [['B', own], ['E', {f: ve}], ['P', 0], ['P', 0], ['R'], x1, ['R'], ['E', {f: vb}], ['P', 0], ['R'], ['N'], x2, ['R'],
+                         x1, ['R'], x2, ['R'], x1, ['R'], ['A', 0]]  # fmt: skip
+                    cases.append({'kind': 'single', 'events': h, 'fx': True, 'directed': 'preset-reentrant'})
+    return cases
+
+
+def preset_thread_case(rng, kws, reentrant=False):
+    """Thread 0 builds Config objects (at top level and inside blocks), then starts thread / context 2 (['T', 2]: a plain
+    thread; ['F', 2]: a copied context) which is handed them and enters them - only objects that thread 0 neither has
+    open at that point nor enters afterwards (one token per object); thread 1 works on objects of its own."""
+    while True:
+        ha = random_history(rng, rng.randrange(6, 10), kws, presets=0.35, reentrant=reentrant)
+        k = rng.randrange(len(ha) + 1)
+        _, presets, opened = state_before(ha, k)
+        busy = set() if reentrant else set(opened) | {e[1] for e in ha[k:] if e[0] == 'P'}
+        usable = [i for i in range(len(presets)) if i not in busy]
+        if usable:
+            break
+    how = rng.choice(['T', 'F'])
+    ha2 = ha[:k] + [[how, 2]] + ha[k:]
+    hb = random_history(rng, 5, kws, presets=0.3, reentrant=reentrant)
+    while True:
+        hc = random_history(rng, rng.randrange(4, 7), kws, presets=0.45, handed=len(presets), usable=usable, reentrant=reentrant)
+        if any(e[0] == 'P' and e[1] < len(presets) for e in hc):
+            break
+    sched = [0] * len(ha2) + [1] * len(hb)
+    rng.shuffle(sched)
+    first_fork = [i for i, t in enumerate(sched) if t == 0][k]
+    rest = sched[first_fork + 1 :] + [2] * len(hc)
+    rng.shuffle(rest)
+    return {'kind': 'threads', 'histories': {'0': ha2, '1': hb, '2': hc}, 'schedule': sched[: first_fork + 1] + rest, 'forks': {'2': 0}}
+
+
+def preset_sensitivity(cases):
+    """Blind-spot table (a zero fails the check closed): for every setting, the number of blocks opened by entering a
+    kept Config object under a value of the setting OTHER than the one active when the object was built, whose exit is
+    followed by a read / a creation before the next enter or exit (so that restoring the build-time configuration
+    instead of the enter-time one shows)."""
+    table = dict.fromkeys(SETTINGS, 0)
+    for c in cases:
+        if c['kind'] != 'single' or not any(e[0] == 'P' for e in c['events']):
+            continue
+        trace = []
+        list(walk(c['events'], trace=trace))
+        for t in trace:
+            nxt = next((e[0] for e in c['events'][t['exit'] + 1 :] if e[0] in ('R', 'N', 'E', 'P', 'X', 'XE')), None)
+            if nxt in ('R', 'N'):
+                for j, f in enumerate(SETTINGS):
+                    if t['built_under'] is not None and t['built_under'][j] != t['entered_under'][j]:
+                        table[f] += 1
+    return table
+
+
+def config_method_ties(fc):
+    """Shape of Config.__init__ / __enter__ / __exit__ assumed by Model.Config (Enter / Build / EnterP / Exit), fail closed:
+      __init__:  [<name> = _config_var.get();] self._instance = replace(<that>, **kwargs)   - nothing else is kept
+      __enter__: self.token = _config_var.set(self._instance); return self._instance         - the token of THIS set
+      __exit__:  _config_var.reset(self.token)                                               - restores the enter-time value
+    and Config.instance is `return _config_var.get()`; _config_var is a contextvars.ContextVar.
+    Returns 'object-token' for this form (ONE token slot per Config object: the object must not be entered again while
+    its block is open) or 'context-token-stack' for the form of fixes/C19-config-reentrant.diff (the tokens of the open
+    blocks are kept, innermost last, in a second context variable: any Config object may be entered at any time)."""
+    import ast
+    import inspect
+    import textwrap
+
+    C = fc.Config
+    if not isinstance(fc._config_var, contextvars.ContextVar):
+        raise lib.Tie('config._config_var is not a contextvars.ContextVar: the model gives every thread / context its own binding')
+
+    def body(fn):
+        tree = ast.parse(textwrap.dedent(inspect.getsource(fn))).body[0]
+        return [ast.dump(n) for n in tree.body if not (isinstance(n, ast.Expr) and isinstance(n.value, ast.Constant))]
+
+    def stmts(src):
+        return [ast.dump(n) for n in ast.parse(textwrap.dedent(src)).body]
+
+    accepted = {
+        '__init__': [
+            stmts('config = _config_var.get()\nself._instance = replace(config, **kwargs)'),
+            stmts('self._instance = replace(_config_var.get(), **kwargs)'),
+        ],
+        '__enter__': [
+            stmts('self.token = _config_var.set(self._instance)\nreturn self._instance'),
+            stmts('_tokens_var.set(_tokens_var.get() + (_config_var.set(self._instance),))\nreturn self._instance'),
+        ],
+        '__exit__': [
+            stmts('_config_var.reset(self.token)'),
+            stmts('*tokens, token = _tokens_var.get()\n_tokens_var.set(tuple(tokens))\n_config_var.reset(token)'),
+        ],
+        'instance': [stmts('return _config_var.get()')],
+    }
+    family = {}
+    for name, forms in accepted.items():
+        fn = getattr(C, name)
+        fn = getattr(fn, '__func__', fn)
+        if body(fn) in forms:
+            family[name] = forms.index(body(fn))
+        if body(fn) not in forms or (name == '__exit__' and family['__exit__'] != family.get('__enter__')):
+            raise lib.Tie(
+                f'Config.{name} is not of the form the model assumes ({config_method_ties.__doc__.split("fail closed:")[1].strip()}): '
+                'the model makes the configuration computed at BUILD time active at ENTER time and restores at exit the value the '
+                'context variable had when the block was ENTERED (token of the set done by __enter__), in the current context only'
+            )
+    hooks = sorted(set(vars(C)) & {'__aenter__', '__aexit__', '__call__', '__getattr__', '__setattr__', '__new__', '__del__', '__copy__', '__deepcopy__'})
+    if hooks:
+        raise lib.Tie(f'Config defines {hooks}: ways of entering / leaving / building a configuration block that the model does not cover')
+    if family['__enter__'] == 1:
+        tv = getattr(fc, '_tokens_var', None)
+        if not isinstance(tv, contextvars.ContextVar) or tv is fc._config_var or tv.get() != ():
+            raise lib.Tie('config._tokens_var is not a separate contextvars.ContextVar with default (): the model keeps one stack of open blocks per context')
+        return 'context-token-stack'
+    if reentrant_fix_recorded():
+        raise lib.Tie(
+            'Config.__enter__ / __exit__ keep ONE token per Config object (`self.token`) again: KNOWN_FINDINGS.txt records this as fixed '
+            '(fixes/C19-config-reentrant.diff) - a Config object entered while its block is open (with p: with p: ..., or open in two '
+            'threads at once) loses the outer token and the outer exit raises without restoring the configuration'
+        )
+    return 'object-token'
+
+
+REENTRANT_KEY = 'config-object-entered-while-open'
+
+
+def reentrant_fix_recorded():
+    """Whether KNOWN_FINDINGS.txt records the re-entry defect as fixed: a line `fixed: property=C19 <commit> ...` that names
+    fixes/C19-config-reentrant.diff (the token `C19-config-reentrant`).  From then on the one-token-per-object form is a
+    regression: the re-entrant histories are generated whatever the form, and the static tie refuses that form."""
+    if not lib.KNOWN.exists():
+        return False
+    return any(ln.strip().startswith('fixed:') and 'property=C19' in ln and 'C19-config-reentrant' in ln for ln in lib.KNOWN.read_text().splitlines())
+
+
+def reentrant_config():
+    """Whether the generators enter Config objects again while their block is open: when the code under test keeps its
+    tokens per context (see config_method_ties), or when the fix that makes it do so is on record (then required)."""
+    if reentrant_fix_recorded():
+        return True
+    try:
+        return config_method_ties(impl()['fc']) == 'context-token-stack'
+    except lib.Tie:
+        return False
+
+
 def coq_event(e) -> str:
     if e[0] == 'E':
         kw = clist(e[1].items(), lambda kv: f'({COQ_SET[kv[0]]}, {cz(kv[1])})')
         return f'Enter {kw}'
+    if e[0] == 'B':
+        kw = clist(e[1].items(), lambda kv: f'({COQ_SET[kv[0]]}, {cz(kv[1])})')
+        return f'Build {kw}'
+    if e[0] == 'P':
+        return f'EnterP {e[1]}%nat'
     if e[0] == 'D':
         return f'Derive {COQ_HOW[e[2]]} {e[1]}%nat'
     if e[0] == 'A' and len(e) > 2:
@@ -1155,6 +1478,22 @@ class Check(PropertyCheck):
         'hand-written comparison; InverseOperator.config is a static field; no lazy-inverse class overrides reduce(); in the furax '
         'package the active configuration is read only in InverseOperator.__init__ and InverseOperator is constructed only in '
         'AbstractLinearOperator.inverse',
+        'Config objects built at one point and entered at another (Build / EnterP): the harness keeps genuine Config objects '
+        '(p = Config(**kw)) and enters them later with `with p:` - at other depths, several times one after the other, inside blocks of '
+        'other kept objects, in other threads / copied contexts that are handed them; Config.__enter__ keeps its token in the object '
+        '(ONE slot, `self.token`), so a Config object entered again WHILE ITS BLOCK IS OPEN (with p: with p: ..., or the same object open '
+        'in two threads at once) loses the outer token: the outer exit raises RuntimeError (token already used) / ValueError (token of '
+        'another context) and the outer configuration is not restored - the model (a stack of frames, indifferent to the object a frame comes from: theorem '
+        'reentered_preset_block) follows the code WITH fixes/C19-config-reentrant.diff (tokens kept per context, recognised by the static tie): '
+        'with that form, or once KNOWN_FINDINGS.txt has a line `fixed: property=C19 <commit> ... C19-config-reentrant ...`, the generators DO '
+        'enter objects whose block is open, nested and in several threads at once (and the static tie then refuses the one-token form); on '
+        'the pinned form without that line they do not (stats: config_objects_entered_again_while_open); the failing histories are kept as '
+        'fixes/C19-config-reentrant.replay-nested.json / .replay-threads.json (`./check C19 --replay <file>`); static tie (config_method_ties, fail closed): Config.__init__ / __enter__ / __exit__ / instance have exactly the '
+        'statement shapes the model assumes (instance = replace(_config_var.get(), **kwargs); token of the set done by __enter__; '
+        'reset(token) at exit), _config_var is a ContextVar',
+        'applications leave configurations alone: every Config(...) call of the harness gets a solver_options dict of its own; the stored '
+        'and the active configuration are re-read after every application and every object at the end of the history (applied or not) and '
+        'compared, object by object, with an independent record of the setting objects (im["options_ref"], never handed to furax)',
         'not exercised: the transpose of a lazy inverse (applying TransposeOperator(InverseOperator) raises TypeError in the code under '
         'test), copy / pickle of operators, solver_options holding DIFFERENT array objects under the same key passed to one jitted '
         'function (the == of the static fields raises ValueError in the cache lookup: loud, not a wrong configuration)',
@@ -1189,6 +1528,7 @@ class Check(PropertyCheck):
         if not re.search(r'self\.config\s*=\s*Config\.instance\(\)', init):
             raise lib.Tie('InverseOperator.__init__ no longer stores Config.instance() in self.config')
         static_ties(im['fc'])
+        config_method_ties(im['fc'])
 
 
     def cases(self):
@@ -1196,7 +1536,7 @@ class Check(PropertyCheck):
         cases = directed_cases(self.rng, quick)
         for h in enum_histories(5 if quick else 6, KWS[:3] if quick else KWS[:4]):
             cases.append({'kind': 'single', 'events': h, 'fx': True})
-        for _ in range(600 if quick else 6000):
+        for _ in range(450 if quick else 6000):
             cases.append({'kind': 'single', 'events': random_history(self.rng, self.rng.randrange(6, 16), KWS), 'fx': True})
         # threads: all interleavings of two short histories, plus random schedules with forks
         pool = [h for h in enum_histories(4, KWS[:2]) if any(e[0] == 'E' for e in h) and any(e[0] == 'R' for e in h)]
@@ -1225,7 +1565,7 @@ class Check(PropertyCheck):
         cases += after_creation_cases(self.rng, quick)
         for h in enum_histories(6, KWS[:2] if quick else KWS[:3], derive=True):
             cases.append({'kind': 'single', 'events': h, 'fx': True})
-        for _ in range(250 if quick else 4000):
+        for _ in range(200 if quick else 4000):
             h = random_history(self.rng, self.rng.randrange(6, 16), KWS, derive=0.2)
             cases.append({'kind': 'single', 'events': h, 'fx': True})
         for _ in range(20 if quick else 300):
@@ -1238,6 +1578,30 @@ class Check(PropertyCheck):
             self.rng.shuffle(sched)
             cases.append({'kind': 'threads', 'histories': {'0': ha, '1': hb}, 'schedule': sched, 'forks': {}})
         cases += eq_cases(self.rng, quick)
+        # Config objects BUILT at one point and ENTERED at another (round 3): directed, exhaustive small scope, random
+        # (with inverses, derivations and routes), threads / contexts that are handed objects built by another thread
+        # entering an object again while its block is open: only where the code under test keeps its tokens per context
+        # (fixes/C19-config-reentrant.diff); with the pinned one-token-per-object form such histories are outside the model
+        re_ok = reentrant_config()
+        self.stats['config_objects_entered_again_while_open'] = 'exercised' if re_ok else 'not exercised (Config keeps ONE token per object)'
+        cases += preset_cases(self.rng, quick, re_ok)
+        for h in enum_preset_histories(6 if quick else 7, KWS[:2], re_ok):
+            cases.append({'kind': 'single', 'events': h, 'fx': True, 'directed': 'preset-enum'})
+        for _ in range(150 if quick else 3000):
+            h = random_history(self.rng, self.rng.randrange(7, 16), KWS, derive=0.08, presets=0.3, reentrant=re_ok)
+            if any(e[0] == 'P' for e in h):
+                cases.append({'kind': 'single', 'events': h, 'fx': True, 'directed': 'preset-random'})
+        for _ in range(8 if quick else 150):
+            h = random_history(self.rng, self.rng.randrange(8, 14), KWS, derive=0.1, presets=0.3, routes=['eager', 'jitarg', 'fjitarg', 'jit', 'matrix'], reentrant=re_ok)
+            if any(e[0] == 'P' for e in h):
+                cases.append({'kind': 'single', 'events': h, 'fx': True, 'directed': 'preset-random'})
+        for _ in range(60 if quick else 800):
+            cases.append(preset_thread_case(self.rng, KWS, re_ok))
+        table = preset_sensitivity(cases)
+        holes = [FIELD[f] for f, n in table.items() if n == 0]
+        if holes:
+            raise RuntimeError(f'generator self-check: no Config object is entered under a value of {holes} other than the one it was built under, with a read after its block')
+        self.stats['preset_blocks_entered_under_another_value_than_built_and_read_after'] = {FIELD[f]: n for f, n in table.items()}
         self.exhaustive = False
         # generator self-check (fail closed): every introspected configuration field, every ordered pair of its
         # values, is exercised where taking it from the wrong configuration shows - the configuration active at
@@ -1264,6 +1628,13 @@ class Check(PropertyCheck):
         self.stats['reference_solves'] = {f'solver{s}/options{o}': [r['steps'], r['ok']] for (s, o), r in sorted(im['ref'].items())}
         return cases
 
+    def finding_key(self, case, obs):
+        if case.get('key'):
+            return case['key']
+        if isinstance(obs, dict) and obs.get('raised') and case.get('kind') == 'single':
+            return REENTRANT_KEY if 'Token' in obs['raised'] or 'token' in obs['raised'] else None
+        return None
+
     def rule(self):
         return (
             'single (every application observed through the stored field AND the effect of two genuine solves op.I(y)): '
@@ -1286,6 +1657,16 @@ class Check(PropertyCheck):
             'Generator self-check (fail closed): for every field and ordered pair of values there is an application whose outcome changes if '
             'the field is taken from the configuration active at application / at derivation / of an object passed earlier to the same '
             'jitted function; every way of deriving and every route is outcome-relevant for every field. '
+            'CONFIG OBJECTS BUILT AT ONE POINT AND ENTERED AT ANOTHER (events B = p = Config(kw), P = with p_i): every field x every ordered '
+            'pair (value active at build, value active at enter) x keywords of the object x 7 shapes (built at top level and entered in a '
+            'block; built in a block and entered after it / in a sibling block / in a nested block; the same object at three depths one '
+            'after the other; inside the block of another kept object; an object built inside a kept object\'s block) x normal / '
+            'exceptional exits, with reads and inverse creations inside and after the block; every well-nested history of <=6 (quick) / <=7 '
+            'events over build(2) / enter-object / enter-inline / exit / exit-by-exception / read that enters an object and reads; seeded '
+            'random histories mixing them with inverses, derivations and routes; threads: a plain thread or a copied context is handed '
+            'objects built by thread 0 (at top level and inside blocks) and enters them under a random schedule. Self-check: for every '
+            'field some object is entered under another value than it was built under and a read follows its block. After every application '
+            'the stored and the active configuration are re-read, and every object at the end of the history. '
             'Non-trivial: contains at least one enter and one read/apply (equality cases: always).'
         )
 
@@ -1302,7 +1683,7 @@ class Check(PropertyCheck):
         if case['kind'] == 'eq':
             return True
         evs = case['events'] if case['kind'] == 'single' else sum(case['histories'].values(), [])
-        return any(e[0] == 'E' for e in evs) and any(e[0] in ('R', 'A') for e in evs)
+        return any(e[0] in ('E', 'P') for e in evs) and any(e[0] in ('R', 'A') for e in evs)
 
     def run_impl(self, case):
         fc = impl()['fc']
@@ -1312,22 +1693,34 @@ class Check(PropertyCheck):
             r = Runner(case['events'], fx=case.get('fx', False), jit=case.get('jit', False))
 
             def go():
-                end = r.block(0)
+                try:
+                    end = r.block(0)
+                except (RuntimeError, ValueError, LookupError) as e:
+                    # an enter / exit of the code under test raised (e.g. a context-variable token used twice, or in
+                    # another context): an observation - the oracle reports it with the history
+                    if isinstance(e, IndexError):
+                        raise
+                    return {'raised': f'{type(e).__name__}: {str(e)[:160]}', 'active_then': cfg_ids(fc.Config.instance())}
                 assert end == len(case['events']), 'unbalanced'
                 return cfg_ids(fc.Config.instance())
 
             final = contextvars.Context().run(go)
-            return {'obs': [o for _, o in r.obs], 'final': final}
+            out = {'obs': [o for _, o in r.obs], 'final': final, 'objects': [held_ids(X.ops[0]) for X in r.invs]}
+            if isinstance(final, dict):
+                out.update(final=None, **final)
+            # 'objects': the configuration every object stores at the END of the history (applied or not)
+            return out
         hist = {int(k): v for k, v in case['histories'].items()}
         gate = Gate(case['schedule'], hist, case.get('forks', {}))
         forked = {int(k) for k in case.get('forks', {})}
-        for tid in hist:
-            if tid not in forked:
-                gate.start(tid)
-        for th in list(gate.threads):
-            th.join(30)
-        for th in list(gate.threads):
-            th.join(30)
+        with contextlib.redirect_stdout(io.StringIO()):  # default_solver_callback prints
+            for tid in hist:
+                if tid not in forked:
+                    gate.start(tid)
+            for th in list(gate.threads):
+                th.join(30)
+            for th in list(gate.threads):
+                th.join(30)
         if gate.errors:
             return {'error': gate.errors}
         return {'obs': [[t, o] for t, o in gate.log]}
@@ -1348,6 +1741,8 @@ class Check(PropertyCheck):
             pos[t] += 1
             if e[0] == 'F':
                 evs.append(f'Fork {t}%nat {e[1]}%nat')
+            elif e[0] == 'T':
+                evs.append(f'Hand {t}%nat {e[1]}%nat')
             else:
                 evs.append(f'Ev {t}%nat ({coq_event(e)})')
         return 'run_global ' + clist(evs)
@@ -1413,6 +1808,14 @@ class Check(PropertyCheck):
             fx = case.get('fx', False)
             exp, final = lib.canon(reference(case['events'], fx=fx))
             got = obs['obs']
+            if obs.get('raised'):
+                trace = []
+                list(walk(case['events'], trace=trace))
+                twice = sorted({t['preset'] for t in trace for u in trace if u is not t and u['preset'] == t['preset'] and t['i'] < u['i'] < t['exit']})
+                return (f'the history raised {obs["raised"]} after {len(got)} recorded events (a block could not be left); the active configuration is '
+                        f'then {obs.get("active_then")}, the reference expects every exit to restore the configuration active at the matching enter'
+                        + (f'; Config object(s) p{twice} are entered again while their own block is open: Config keeps one token per OBJECT '
+                           '(`self.token`), the inner enter overwrites the outer token' if twice else ''))
             if got != exp:
                 i = next(i for i, (a, b) in enumerate(zip(got, exp)) if a != b)
                 msg = f'event {i} {case["events"][i]} observed {got[i]} expected {exp[i]}'
@@ -1443,37 +1846,51 @@ class Check(PropertyCheck):
                         why = [sub for sub, h in hybrids(cap, other) if same(h)]
                         if why:
                             whys.append(f'{[FIELD[f] for f in why[0]]} were taken from {label}')
+                    if 'cfg_stored_AFTER_the_application' in got[i] or 'active_configuration_changed_by_the_application' in got[i]:
+                        msg += (': APPLYING the object modified a configuration (-1 = a setting object that is none of the ones the history '
+                                f'configured; compared with an independent record of the setting objects): stored by the object after the application '
+                                f'{got[i].get("cfg_stored_AFTER_the_application", "unchanged")}, active [before, after] '
+                                f'{got[i].get("active_configuration_changed_by_the_application", "unchanged")}')
                     if stored != cap:
                         msg += f': the object stores {show(stored) if isinstance(stored, list) and len(stored) == 4 else stored}'
                     if whys:
                         msg += ': op.I(y) [main: A x = y, sing: singular Z x = y] behaves as if ' + ' / or as if '.join(whys)
                     elif stored == cap:
                         msg += ': the effect of op.I(y) is not that of the captured configuration (whose fields are stored intact)'
+                trace = []
+                list(walk(case['events'], trace=trace))
+                if trace:
+                    names = [FIELD[f] for f in SETTINGS]
+                    show = lambda c: dict(zip(names, c))  # noqa: E731
+                    msg += '; blocks opened by entering a Config object built earlier: ' + '; '.join(
+                        f"event {t['i']} enters p{t['preset']} (built under {show(t['built_under'])}) under {show(t['entered_under'])}"
+                        f" - its exit (event {t['exit']}) must restore the latter" for t in trace)
                 return msg
             if obs['final'] != [0, 0, 0, 0]:
                 return f'configuration after the history is {obs["final"]}, not the defaults'
+            want = [o['cfg'] for o in list(walk(case['events']))[-1][3]] if case['events'] else []
+            if 'objects' in obs and obs['objects'] != lib.canon(want):
+                j = next((j for j, (a, b) in enumerate(zip(obs['objects'], want)) if a != b), None)
+                return (f'at the END of the history object {j} stores the configuration {obs["objects"][j] if j is not None else obs["objects"]}, '
+                        f'not the one active at its creation {want[j] if j is not None else want} (-1 = a setting object that is none of the ones the '
+                        f'history configured: the configuration captured by an inverse was modified after its creation) [{LEGEND}]')
             return None
         # threads: each thread's observations equal those of its history alone
         starts = {}
         per = {}
         for t, o in obs['obs']:
             per.setdefault(t, []).append(o)
-        # a forked context starts from the parent's configuration at the fork
+        # a forked context starts from the parent's configuration at the fork, a plain thread from the defaults;
+        # both are handed the Config objects the parent has built so far (the prefix may be unbalanced)
+        handed = {}
         for child, parent in case.get('forks', {}).items():
             h = case['histories'][str(parent)]
-            k = next(i for i, e in enumerate(h) if e[0] == 'F' and e[1] == int(child))
-            # configuration of the parent just before the fork: replay the prefix (it may be unbalanced)
-            cur, stack = [0, 0, 0, 0], []
-            for e in h[:k]:
-                if e[0] == 'E':
-                    stack.append(list(cur))
-                    for kk, v in e[1].items():
-                        cur[SETTINGS.index(kk)] = v
-                elif e[0] in ('X', 'XE'):
-                    cur = stack.pop()
-            starts[int(child)] = cur
+            k = next(i for i, e in enumerate(h) if e[0] in ('F', 'T') and e[1] == int(child))
+            cur, presets, _ = state_before(h, k)
+            starts[int(child)] = cur if h[k][0] == 'F' else [0, 0, 0, 0]
+            handed[int(child)] = presets
         for t, h in case['histories'].items():
-            exp, _ = reference(h, starts.get(int(t)))
+            exp, _ = reference(h, starts.get(int(t)), presets0=handed.get(int(t)))
             if per.get(int(t), []) != exp:
                 return f'thread {t} observed {per.get(int(t))} but alone it observes {exp}'
         return None
